@@ -10,28 +10,33 @@ from harness import vlib
 from harness import c15lib as L
 
 THEOREMS = [
-    "C15_agree_partial", "C15_exact_serializes",
+    "C15_agree_partial", "C15_agree_o_partial", "C15_exact_serializes", "C15_frame_o_partial",
     "C15_compositional_list", "C15_compositional_dict", "C15_compositional_tuple",
     "C15_compositional_optional", "C15_compositional_field", "C15_compositional_wrapper",
     "C15_unpack_compositional_list", "C15_unpack_compositional_dict", "C15_unpack_compositional_tuple",
-    "C15_unpack_compositional_optional",
+    "C15_unpack_compositional_optional", "C15_unpack_agree", "C15_unpack_agree_data",
     "C15_frame_partial", "C15_frame_creation_extends", "C15_frame_history",
     "C15_lookalike_refuted", "C15_subclass_refuted", "C15_frame_subclass_refuted",
     "C15_fieldless_member_refuted", "C15_dialect_priority_refuted", "C15_union_order_observable", "C15_union_container_refuted",
 ]
 
-CASE_TYPE = "env * (bool * mode * option bool) * ty * val * res val"
+FORMAT_THEOREMS = [
+    "C15_format_agree_partial", "C15_format_agree_plain_partial", "C15_format_codec_list", "C15_format_codec_dict",
+    "C15_format_decode_agree", "C15_format_decode_agree_data", "C15_format_priority_refuted",
+]
+
+CASE_TYPE = "env * (bool * mode * opts) * ty * val * res val"
 RUN = ("(fun c => match c with (E, (isp, m, dl), t, v, ex) => "
-       "(if isp then run_pack E m dl t v else run_unpack E m t v) end)")
+       "(if isp then run_pack_o E m dl t v else run_unpack E m t v) end)")
 OK_FUN = ("fun c : (" + CASE_TYPE + ") => match c with (E, (isp, m, dl), t, v, ex) => "
-          "match (if isp then run_pack E m dl t v else run_unpack E m t v) with "
+          "match (if isp then run_pack_o E m dl t v else run_unpack E m t v) with "
           "| Err XUnmodelled => true | r => res_eqb r ex end end")
 UNMODELLED_FUN = ("fun c : (" + CASE_TYPE + ") => match c with (E, (isp, m, dl), t, v, ex) => "
-                  "match (if isp then run_pack E m dl t v else run_unpack E m t v) with "
+                  "match (if isp then run_pack_o E m dl t v else run_unpack E m t v) with "
                   "| Err XUnmodelled => false | _ => true end end")
 # in the domain of C15_agree_partial  (bad_idx lists the cases where the predicate is FALSE)
 DOMAIN_FUN = ("fun c : (" + CASE_TYPE + ") => match c with (E, (isp, m, dl), t, v, ex) => "
-              "exact E v t && no_lookalike_union E t && dialect_compat E dl && names_ok E end")
+              "exact E v t && no_lookalike_union E t && dialect_compat_o E dl && names_ok E end")
 
 
 # ---------------------------------------------------------------------------
@@ -47,7 +52,9 @@ def real_pack(sc, mod, i, obj, mode):
     Dl = dl_of(sc, mod)
     if mode == "mixin":
         W = getattr(mod, f"W{i}")
-        r = L.call(lambda: (W(f=obj).to_dict(dialect=Dl) if Dl else W(f=obj).to_dict())["f"])
+        # (a None root under a call dialect with omit_none: the wrapper drops its own field)
+        r = L.call(lambda: (W(f=obj).to_dict(dialect=Dl) if Dl else W(f=obj).to_dict()).get("f") if obj is None
+                   else (W(f=obj).to_dict(dialect=Dl) if Dl else W(f=obj).to_dict())["f"])
     else:
         T = mod.ROOTS[i]
         r = L.call(lambda: (BasicEncoder(T, default_dialect=Dl) if Dl else BasicEncoder(T)).encode(obj))
@@ -254,7 +261,7 @@ def oneshot_history(ctx, sc, mod, src, env_name):
 
 def coq_case(c: Case) -> str:
     sc = c.sc
-    dl = L.coq_optb(sc.dialect) if c.isp else "None"
+    dl = L.coq_opts(sc) if c.isp else "no_opts"
     return (f"({c.env_name}, ({'true' if c.isp else 'false'}, {'Mixin' if c.mode == 'mixin' else 'Codec'}, {dl}), "
             f"{L.coq_ty(c.ty)}, {L.coq_val(c.v)}, {L.coq_res(c.exp)})")
 
@@ -429,7 +436,7 @@ def oracle_entry_points(ctx, sc, mod, src, cls_name, v, conforming_kind):
     outs = {k: res_key(L.call(f)) for k, f in eps.items()}
     ctx.count(("ep-pack", sc.sid, cls_name, repr(v)), n=len(outs))
     ctx.hist("oracle_kind", "pack:" + conforming_kind)
-    compat = sc.dialect in (None, 'unset', 'strategy') or all(k.by_alias is None or k.by_alias == sc.dialect for k in sc.classes)
+    compat = L.scenario_compat(sc)
     names = list(outs)
     ref = names[0]
     for k in names[1:]:
@@ -899,7 +906,7 @@ def fresh_subclass_agrees(ctx, sc, mod, cn, n, Dl, kw, vals_by_root):
     from mashumaro.codecs.basic import BasicEncoder
     S = mod.__dict__.get(f"_S{n}")
     base = getattr(mod, cn)
-    compat = sc.dialect in (None, "unset", "strategy") or all(k.by_alias is None or k.by_alias == sc.dialect for k in sc.classes)
+    compat = L.scenario_compat(sc)
     if S is None or not compat:
         return None
     for i, vals in vals_by_root.items():
@@ -985,8 +992,14 @@ def run(ctx: vlib.Ctx):
         "the frame oracle",
     ]
     ctx.trusted += [
-        "C15 format family / lazy compilation / Config options other than serialize_by_alias are outside the Coq model: covered by "
-        "the oracles only (format libraries msgpack, orjson, json, yaml, tomli_w/tomllib are oracles)",
+        "C15 format part of the model (C15Format.v): ONE document function and ONE parser per format are parameters of the "
+        "theorems (the libraries msgpack, orjson, json, yaml, tomli_w/tomllib are oracles; the correspondence only models what they "
+        "reject: TOML needs a table and has no null) and documents are compared after parsing them back (key order ignored for "
+        "YAML/TOML, TOML date literals as ISO text); Dialect.merge's OPTION part is the translated kernel K2 (+K13), its STRATEGY part "
+        "(pass_through for bytes/date/..., user strategies) and the options namedtuple_as_dict/omit_default/no_copy_collections are "
+        "outside the model - format tie restricted to union-free types, strategies covered by the format oracle only",
+        "lazy compilation, module identity, PEP 563 and the Config options other than serialize_by_alias / omit_none are outside the "
+        "Coq model (invisible there): covered by the correspondence (as invariance) and the oracles",
         "typing interns parametrised generics by equal arguments (List[Union[A,B]] is List[Union[B,A]]): modules in which the "
         "type objects do not have the generated member order are dropped (stated predicate module_matches_scenario)",
     ]
@@ -1116,7 +1129,7 @@ def run(ctx: vlib.Ctx):
         if cm.info.get("junk"):
             continue            # not a conforming value: outside the property (kept for the correspondence only)
         sc = cm.sc
-        compat = sc.dialect in (None, 'unset', 'strategy') or all(q.by_alias is None or q.by_alias == sc.dialect for q in sc.classes)
+        compat = L.scenario_compat(sc)
         if not compat and not in_dom and a[0] == "ok" and b[0] == "ok":
             ctx.hist("agree_domain", "skipped:dialect-priority")
             continue            # documented precedence of call dialect vs default dialect (keys differ, both succeed)
@@ -1172,6 +1185,13 @@ def run(ctx: vlib.Ctx):
 
     for (sc, vals, src, mod) in loaded:
         L.unload_module(mod)
+
+    # ---------------- (M) correspondence of the format part of the model (C15Format.v over the K2/K13 kernels)
+    ctx.theorems("props/C15_formats.vo", FORMAT_THEOREMS, kernels=["K2", "K13"])
+    ctx.coqchk(["VerifProps.C15_entrypoints", "VerifProps.C15_formats"])
+    from harness import c15fmt_tie
+    tied_for_formats = [(sc, vals) for (sc, vals, src, mod) in loaded if not sc.wide and "~" not in str(sc.sid) and not str(sc.sid).startswith("fx")]
+    c15fmt_tie.run_format_tie(ctx, tied_for_formats, ctx.budget(10, 60))
 
     # ---------------- oracle 4: format mixins vs format codecs under user dialects (outside the Coq model)
     from harness import c15fmt
@@ -1405,6 +1425,8 @@ def scenario_from_module(mod, rep):
     from mashumaro import DataClassDictMixin
     sc = L.Scenario("replay")
     sc.dialect = rep.get("dialect")
+    dlo = getattr(mod.__dict__.get("Dl"), "omit_none", None)
+    sc.dialect_omit = dlo if isinstance(dlo, bool) else None
     names = sorted([n for n in mod.__dict__ if n.startswith("K") and n[1:].isdigit()], key=lambda s: int(s[1:]))
 
     def ty_of(tp):
@@ -1442,7 +1464,11 @@ def scenario_from_module(mod, rep):
         ba = getattr(cfg, "serialize_by_alias", None) if cfg else None
         if ba is Sentinel.MISSING:
             ba = None
-        sc.classes.append(L.Cls(n, parent, DataClassDictMixin in k.__bases__, own, cfg is not None, ba))
+        cobj = L.Cls(n, parent, DataClassDictMixin in k.__bases__, own, cfg is not None, ba)
+        on = getattr(cfg, "omit_none", None) if cfg else None
+        if isinstance(on, bool):
+            cobj.extra["omit_none"] = str(on)
+        sc.classes.append(cobj)
     sc.roots = [ty_of(t) for t in mod.ROOTS]
     return sc
 
